@@ -648,14 +648,37 @@ var _ uuid.UUID
 //@ ensures [ctx] !isnil(ret0) && ret1 != nil
 //@ modifies nothing
 
+// C09 ("consults every partition exactly once, on one of its replicas"): the per-node lists partition the dataset's partitions.
+// srcIter is a ghost function: the loop iteration that appended entry j of node n's list (defined once per entry, when the
+// node for that iteration is drawn: the entry goes to the end of that node's list). Every entry is the id of the partition of
+// its iteration, different entries come from different iterations (so no partition index is listed twice), every iteration
+// leaves its entry (so none is skipped), and the node a partition is listed under is the one randomNodeId drew for it.
+//@ ufunc srcIter(uint64, int) int
 //@ func (*storage.Dataset).getSearchQueryNodes
 //@ props C09 C12
+//@ ghost iter int = 0
+//@ ghost theP int = any
+//@ ghost drawn uint64 = 0
+//@ at call partition).randomNodeId
+//@ assume [ghost function srcIter: the entry this iteration appends is the next slot of the drawn node's list] srcIter($ret0, ite(has(result, $ret0), len(result[$ret0]), 0)) == iter
+//@ set drawn = ite(iter == theP, $ret0, drawn)
+//@ set iter = iter + 1
+//@ end
 //@ requires [wf] wfDataset(this)
 //@ ensures [map] ret != nil && fresh(ret)
+//@ ensures [C09 entries-are-partitions] forall n uint64, j int :: has(ret, n) && 0 <= j && j < len(ret[n]) ==> 0 <= srcIter(n, j) && srcIter(n, j) < len(this.partitions) && ret[n][j] == this.partitions[srcIter(n, j)].id
+//@ ensures [C09 no-partition-twice] forall n uint64, j int, m uint64, k int :: has(ret, n) && 0 <= j && j < len(ret[n]) && has(ret, m) && 0 <= k && k < len(ret[m]) && (n != m || j != k) ==> srcIter(n, j) != srcIter(m, k)
+//@ ensures [C09 no-partition-skipped] 0 <= theP && theP < len(this.partitions) ==> has(ret, drawn) && exists j int :: 0 <= j && j < len(ret[drawn]) && srcIter(drawn, j) == theP
 //@ modifies nothing
 //@ loop 1
 //@ invariant [map] result != nil && fresh(result)
-//@ invariant [lists-local] forall n uint64 :: has(result, n) ==> fresh(result[n])
+//@ invariant [lists-local] forall n uint64 :: has(result, n) ==> fresh(result[n]) && allocated(result[n])
+//@ invariant [iterations] iter == rangeindex + 1
+//@ invariant [lists-disjoint] forall n uint64, m uint64 :: has(result, n) && has(result, m) && n != m ==> result[n].ref != result[m].ref
+//@ invariant [partitions-fixed] forall i int :: 0 <= i && i < len(this.partitions) ==> this.partitions[i] == old(this.partitions[i]) && this.partitions[i].id == old(this.partitions[i].id)
+//@ invariant [C09 entries-are-partitions] forall n uint64, j int :: has(result, n) && 0 <= j && j < len(result[n]) ==> 0 <= srcIter(n, j) && srcIter(n, j) <= rangeindex && result[n][j] == this.partitions[srcIter(n, j)].id
+//@ invariant [C09 no-partition-twice] forall n uint64, j int, m uint64, k int :: has(result, n) && 0 <= j && j < len(result[n]) && has(result, m) && 0 <= k && k < len(result[m]) && (n != m || j != k) ==> srcIter(n, j) != srcIter(m, k)
+//@ invariant [C09 no-partition-skipped] 0 <= theP && theP <= rangeindex ==> has(result, drawn) && exists j int :: 0 <= j && j < len(result[drawn]) && srcIter(drawn, j) == theP
 
 //@ func iface:protobuf.SearchClient.SearchPartitions
 //@ props C09
@@ -723,6 +746,7 @@ var _ uuid.UUID
 //@ ghost spawned int = 0
 //@ ghost real int = 0
 //@ at go searchPartitionsOnNode
+//@ requires [C09 each-node-is-asked-for-its-own-list] has(nodePartitions, $arg2) && $arg3 == nodePartitions[$arg2] && $arg4 == query && $arg5 == k
 //@ set spawned = spawned + 1
 //@ end
 // content of the answer, stated for an arbitrary fixed received item: theItem at position theIdx of the theMsg-th message.
